@@ -460,17 +460,38 @@ func main() {
 				mc.ParallelFor(n, r.Workers, func(i int) {
 					for j := 0; j < n; j++ {
 						if int(rel[i][j]) != sign(rank[i]-rank[j]) && atomic.AddInt64(&bad, 1) <= 3 {
-							// find a witness triple
-							w := ncase{A: strs[i], B: strs[j]}
-							msg := fmt.Sprintf("CompareNatural is not a total preorder: (%q,%q)=%d disagrees with the ranks %d/%d", strs[i], strs[j], rel[i][j], rank[i], rank[j])
-							for k := 0; k < n; k++ {
-								if rel[i][j] <= 0 && rel[j][k] <= 0 && rel[i][k] > 0 {
-									w.C = strs[k]
-									msg = fmt.Sprintf("CompareNatural is not transitive: %q <= %q <= %q but (%q,%q)=%d", strs[i], strs[j], strs[k], strs[i], strs[k], rel[i][k])
-									break
+							// The relation is total and antisymmetric (checked pair by pair), so a
+							// rank mismatch means it is not transitive: find a witness triple, first
+							// among the triples that contain i and j, then anywhere. The case that is
+							// recorded is the triple, which a replay can check on its own.
+							le := func(a, b int) bool { return rel[a][b] <= 0 }
+							bad3 := func(a, b, c int) bool { return le(a, b) && le(b, c) && rel[a][c] > 0 }
+							var w *ncase
+							try := func(a, b, c int) bool {
+								for _, p := range [6][3]int{{a, b, c}, {a, c, b}, {b, a, c}, {b, c, a}, {c, a, b}, {c, b, a}} {
+									if bad3(p[0], p[1], p[2]) {
+										w = &ncase{A: strs[p[0]], B: strs[p[1]], C: strs[p[2]]}
+										return true
+									}
+								}
+								return false
+							}
+							for k := 0; k < n && w == nil; k++ {
+								try(i, j, k)
+							}
+							for a := 0; a < n && w == nil; a++ {
+								for b := a + 1; b < n && w == nil; b++ {
+									for c := b + 1; c < n && w == nil; c++ {
+										try(a, b, c)
+									}
 								}
 							}
-							r.Violation(mc.Case{Harness: "natural", Trace: mc.J(w), Msg: msg})
+							if w == nil {
+								// cannot happen for a total antisymmetric relation; report the pair (a replay will not confirm it)
+								w = &ncase{A: strs[i], B: strs[j]}
+							}
+							msg := fmt.Sprintf("CompareNatural is not transitive: %q <= %q <= %q but (%q,%q)=%d (found through the ranks of %q and %q)", w.A, w.B, w.C, w.A, w.C, mstr.CompareNatural(w.A, w.C), strs[i], strs[j])
+							r.Violation(mc.Case{Harness: "natural", Trace: mc.J(*w), Msg: msg})
 						}
 					}
 				})
